@@ -256,6 +256,10 @@ func cmdCheck(args []string) int {
 		return 1
 	}
 	e.sweepLoops = pc.TrivialLoopInvariants
+	if *writeExpected {
+		e.writeNameSigs(*verif)
+	}
+	e.loadNameAliases(*verif)
 	// functions of the property
 	funcSet := map[string]bool{}
 	for key, sp := range e.funcSpecs {
